@@ -206,7 +206,7 @@ class Buffer:
         
         padding_length: int = buffer.padding_length
         mask: bytes = (0xff >> padding_length) & 0xff
-        first_byte = (buffer.content[0] & mask).to_bytes(1, 'big')
+        first_byte = (buffer.content[0] & mask).to_bytes(1, 'big') if buffer.length > 0 else b''
         content = first_byte + buffer.content[1:]
 
         if 'int' in type:
